@@ -180,7 +180,7 @@ class C05(Prop):
         C = self.C
         t = G.gen_tx(rng, self.pool, nin, nout, wit='none')
         fund_n = rng.choice((0, 1, 2))
-        outs = [C.CTxOut(rng.randrange(1, 10 ** 9), self.S.CScript(b'\x51')) for _ in range(3)]
+        outs = [C.CTxOut(rng.randrange(1, 10 ** 9), self.S.CScript(b'\x6a')) for _ in range(3)]   # unspendable
         outs[fund_n] = C.CTxOut(rng.randrange(1, 10 ** 9), self.S.CScript(spk))
         fund = C.CTransaction([C.CTxIn(C.COutPoint(bytes(rng.getrandbits(8) for _ in range(32)), 0))], outs)
         h, n, s, q = t['vin'][idx]
@@ -297,6 +297,16 @@ class C05(Prop):
         h, pn, _s, q = tv['vin'][idx]
         tv['vin'][idx] = (h, pn, ssig, q)
         yield mk('c05.vsig', 'accept', cls, txfmt.show_tx(fund), txfmt.show_tx(tv), idx, tag=tag + '/vsig')
+        # ... pointing at another (unspendable) output of the funding transaction, or at another transaction
+        tw = dict(tv, vin=list(tv['vin']))
+        tw['vin'][idx] = (h, (pn + 1) % 3, ssig, q)
+        yield mk('c05.vsig', 'reject', cls, txfmt.show_tx(fund), txfmt.show_tx(tw), idx, tag=tag + '/vsig-other-output')
+        h2 = bytearray(h)
+        h2[rng.randrange(32)] ^= 1 << rng.randrange(8)
+        tw = dict(tv, vin=list(tv['vin']))
+        tw['vin'][idx] = (bytes(h2), pn, ssig, q)
+        yield mk('c05.vsig', 'reject-precondition', cls, txfmt.show_tx(fund), txfmt.show_tx(tw), idx,
+                 tag=tag + '/vsig-other-tx')
         # (2) every single edit, signature kept
         for e in self.edits(rng, t, idx):
             yield case('accept', ssig, e)
@@ -441,6 +451,10 @@ class C05(Prop):
     def agree(self, c, io, mo):
         expect = c['args'][0]
         if c['op'] == 'c05.vsig':
+            if expect == 'reject-precondition':
+                # VerifySignature's own guard (outpoint does not name the funding transaction); the model line only
+                # evaluates the scripts, so only the real outcome is constrained
+                return io == 'err:validation' and mo in ('ok', 'err:validation')
             return io == mo and self._acc(expect, io)
         ip = io.split('#')
         mp = mo.split('#')
